@@ -244,6 +244,19 @@ def group_laws(seed, n_per, kinds=('R2', 'R3', 'SE2', 'SE3')):
                 for v in (a, b, c):
                     nn = math.sqrt(sum(x * x for x in v[3:]))
                     v[3:] = [x / nn for x in v[3:]]
+                # unit quaternions with EXACT structure: components that cancel exactly (qx + qy + qz == 0.0), exact zeros, scalar part exactly 0 or
+                # negative, axis-aligned quarter and half turns -- in every permutation and sign pattern
+                for v in (a, b):
+                    if rng.random() < 0.2:
+                        x6 = 1.0 / math.sqrt(6.0)
+                        q = list(rng.choice([[0.5, -0.5, 0.0, math.sqrt(0.5)], [math.sqrt(0.5), -math.sqrt(0.5), 0.0, 0.0], [x6, x6, -2 * x6, 0.0],
+                                             [0.25, 0.25, -0.5, math.sqrt(0.625)], [0.0, 0.0, 0.0, 1.0], [0.0, 0.0, 0.0, -1.0], [1.0, 0.0, 0.0, 0.0],
+                                             [0.0, math.sqrt(0.5), 0.0, math.sqrt(0.5)], [0.5, 0.5, 0.5, 0.5], [0.5, -0.5, 0.5, -0.5], [0.6, 0.0, -0.8, 0.0],
+                                             [0.36, -0.48, 0.12, math.sqrt(1 - 0.36 ** 2 - 0.48 ** 2 - 0.12 ** 2)]]))
+                        vec = q[:3]
+                        rng.shuffle(vec)
+                        sg = rng.choice([1.0, -1.0])
+                        v[3:] = [sg * x for x in vec] + [q[3] * rng.choice([1.0, -1.0])]
             A, B, Cc = make_pose(k, a), make_pose(k, b), make_pose(k, c)
             data = {'a': a, 'b': b, 'c': c}
             sc = 1.0 + max(abs(x) for x in a + b + c) ** 2
@@ -263,6 +276,11 @@ def group_laws(seed, n_per, kinds=('R2', 'R3', 'SE2', 'SE3')):
                     hx = np.array(list(x) + [1.0])
                     chk(k, 'point_action', np.allclose((A + X).to_array(), (hom(k, A.to_array()) @ hx)[:-1], rtol=0, atol=tol), dict(data, x=x))
                     chk(k, 'to_matrix', np.allclose(A.to_matrix(), hom(k, A.to_array()), rtol=0, atol=1e-12), data)
+                    if hasattr(type(A), 'from_matrix'):
+                        # a pose constructed from a homogeneous matrix IS that transform (a matrix written here, and a product of two matrices)
+                        Ma, Mb = hom(k, A.to_array()), hom(k, B.to_array())
+                        chk(k, 'from_matrix', np.allclose(hom(k, type(A).from_matrix(Ma).to_array()), Ma, rtol=0, atol=1e-12 * sc), data)
+                        chk(k, 'from_matrix_of_product', np.allclose(hom(k, type(A).from_matrix(Ma @ Mb).to_array()), Ma @ Mb, rtol=0, atol=tol), data)
                 # boxplus (typical increments, and for SE(3) rotational parts of norm exactly 1 / next to 1 / above 1)
                 d = cp.gen_arr(rng, C[k], 'typical')
                 if k == 'SE3' and rng.random() < 0.5:
@@ -312,10 +330,19 @@ def group_laws(seed, n_per, kinds=('R2', 'R3', 'SE2', 'SE3')):
                        }
                 if hasattr(make_pose(k, list(s1)), 'to_matrix'):
                     ops['to_matrix'] = lambda q: np.asarray(q.to_matrix()).reshape(-1)
+                via_normalize = k == 'SE3' and rng.random() < 0.5
+                if via_normalize:
+                    # ... or the object is changed by its own in-place method: a quaternion read with a few decimals (or not normalised at all),
+                    # used, then normalize()d, then used again
+                    f_ = rng.choice([1.0 + 3e-5, 1.0 - 4e-7, 2.0, 0.5])
+                    s1 = list(s1[:3]) + [x * f_ for x in s2[3:]]
                 P = make_pose(k, list(s1))
                 for f in ops.values():
                     f(P)
-                np.ndarray.__setitem__(P, slice(None), np.array(s2, dtype=np.float64))
+                if via_normalize:
+                    P.normalize()
+                else:
+                    np.ndarray.__setitem__(P, slice(None), np.array(s2, dtype=np.float64))
                 fresh = make_pose(k, [float(x) for x in np.asarray(P)])
                 for nm, f in ops.items():
                     a_, b_ = np.asarray(f(P), dtype=np.float64), np.asarray(f(fresh), dtype=np.float64)
@@ -405,6 +432,43 @@ def manifold_invariants(seed, n, chain_len=None):
                 bad('SE2 angle out of [-pi,pi] after ' + nm, {'class': 'SE2', 'theta': th, 'theta2': th2, 'angle': ang})
             if abs(math.sin((ang - exact) / 2.0)) > 1e-9 * max(1.0, abs(th), abs(th2)):
                 bad('SE2 angle not congruent to the exact angle after ' + nm, {'class': 'SE2', 'theta': th, 'theta2': th2, 'angle': ang, 'exact': exact})
+    # SE(2) poses constructed from a homogeneous matrix: hand-written quarter / half turns (with either sign of zero), matrices of angles next to the
+    # branch cut, and PRODUCTS of two matrices whose angles add up to +-pi (rounding noise of either sign in the off-diagonal entries)
+    if hasattr(PoseSE2, 'from_matrix'):
+        mats = []
+        for z1 in (0.0, -0.0):
+            for z2 in (0.0, -0.0):
+                mats.append((np.array([[-1.0, z1, 3.0], [z2, -1.0, -4.0], [0.0, 0.0, 1.0]]), math.pi))
+                mats.append((np.array([[z1, -1.0, 0.5], [1.0, z2, 2.0], [0.0, 0.0, 1.0]]), math.pi / 2))
+                mats.append((np.array([[z1, 1.0, 0.5], [-1.0, z2, 2.0], [0.0, 0.0, 1.0]]), -math.pi / 2))
+                mats.append((np.array([[1.0, z1, 0.5], [z2, 1.0, 2.0], [0.0, 0.0, 1.0]]), 0.0))
+        for i in range(n * 5):
+            c = rng.choice(['nearpi', 'uniform', 'product_pi', 'product_pi', 'product'])
+            if c == 'nearpi':
+                th = rng.choice([-1, 1]) * (math.pi - 10.0 ** rng.uniform(-12, -4))
+                mats.append((hom('SE2', [rng.gauss(0, 5), rng.gauss(0, 5), th]), th))
+            elif c == 'uniform':
+                th = rng.uniform(-math.pi, math.pi)
+                mats.append((hom('SE2', [rng.gauss(0, 5), rng.gauss(0, 5), th]), th))
+            else:
+                t1 = rng.uniform(-math.pi, math.pi)
+                t2 = (rng.choice([-1, 1]) * math.pi - t1) if c == 'product_pi' else rng.uniform(-math.pi, math.pi)
+                M1 = PoseSE2([rng.gauss(0, 5), rng.gauss(0, 5)], t1).to_matrix() if rng.random() < 0.5 else hom('SE2', [rng.gauss(0, 5), rng.gauss(0, 5), t1])
+                M2 = PoseSE2([rng.gauss(0, 5), rng.gauss(0, 5)], t2).to_matrix() if rng.random() < 0.5 else hom('SE2', [rng.gauss(0, 5), rng.gauss(0, 5), t2])
+                mats.append((np.asarray(M1) @ np.asarray(M2), t1 + t2))
+        for M, exact in mats:
+            evals += 1
+            try:
+                P = PoseSE2.from_matrix(M)
+            except Exception as ex:  # noqa
+                bad('PoseSE2.from_matrix raised %r' % (ex,), {'class': 'SE2', 'matrix': M.tolist()})
+                continue
+            ang = float(P[2])
+            if not (-math.pi <= ang <= math.pi):
+                bad('SE2 angle out of [-pi,pi] after from_matrix', {'class': 'SE2', 'matrix': M.tolist(), 'angle': ang})
+            elif abs(math.sin((ang - exact) / 2.0)) > 1e-9 or not np.allclose(np.asarray(P)[:2], M[:2, 2], rtol=0, atol=0):
+                bad('SE2 pose from_matrix: angle not congruent to the angle of the matrix (or translation changed)',
+                    {'class': 'SE2', 'matrix': M.tolist(), 'angle': ang, 'exact': exact, 'pose': [float(x) for x in P]})
     # SE(3) chains
     for i in range(max(1, n // 10)):
         evals += 1
@@ -488,7 +552,19 @@ def manifold_invariants(seed, n, chain_len=None):
         q = fixed_q[i] if i < len(fixed_q) else [rng.gauss(0, 1) * rng.choice([1e-3, 1.0, 1e3]) for _ in range(4)]
         P = PoseSE3([1.0, 2.0, 3.0], q)
         R0 = hom('SE3', P.to_array())
+        used = rng.random() < 0.5
+        if used:            # the object was USED before it was normalised (inverse, composition, matrix)
+            P.inverse, P + P, P.to_matrix(), P - P
         P.normalize()
         if abs(float(np.linalg.norm(P[3:])) - 1) > 1e-12 or P[6] < 0 or not np.allclose(hom('SE3', P.to_array()), R0, atol=1e-9):
             bad('normalize', {'class': 'SE3', 'q': q, 'result': [float(x) for x in P]})
+            continue
+        # ... and what it produces afterwards is produced from the NORMALISED quaternion: unit results, the right transforms
+        F = PoseSE3([1.0, 2.0, 3.0], [float(x) for x in np.asarray(P)[3:]])
+        for nm, X, Y in (('inverse', P.inverse, F.inverse), ('oplus', P + P, F + F), ('ominus', P - F, F - F), ('inverse.inverse', P.inverse.inverse, F)):
+            nn = float(np.linalg.norm(np.asarray(X)[3:]))
+            if not abs(nn - 1.0) <= 1e-9 or not np.allclose(hom('SE3', np.asarray(X)), hom('SE3', np.asarray(Y)), atol=1e-9):
+                bad('after normalize()%s, %s of the pose is not that of the normalised pose (quaternion norm %r)' % (' of a pose that had been used' if used else '', nm, nn),
+                    {'class': 'SE3', 'q': q, 'result': [float(x) for x in X], 'expected': [float(x) for x in Y]})
+                break
     return evals, fails
